@@ -1,5 +1,5 @@
 PROP = {
-    "kani_groups": ["hk_core_min"],
+    "kani_groups": ["hk_core_min", "hk_emit_min"],
     "smt": [],
     "technique": "bounded model checking (Kani/CBMC) of emit_core::emit, Runtime::emit and the filter/emitter combinators over symbolic events and leaf verdicts",
     "functions": [
@@ -7,6 +7,7 @@ PROP = {
         "Emitter for {&T, Option, Empty, FromFn, And, Wrap, dyn ErasedEmitter}, wrapping::{FromFilter}",
         "Filter for {&F, Option, Empty, Always, FromFn, And, Or, dyn ErasedFilter}",
         "Event::{new, with_extent, map_props, erase, by_ref}, Props::and_props",
+        "emit::__private::{__private_emit, __private_emit_event, FirstDefined} as expanded by the real emit!/info!/evt! proc-macros (rt:, when:, evt: control parameters)",
     ],
     "bounds": "events with extent none/point/range over all in-range second-resolution instants, <= 2 own and <= 2 ambient "
               "properties with keys from a 4-key pool (duplicates occur); filter/emitter trees: the written-out shapes "
